@@ -149,3 +149,14 @@ CLAIMED['C48'] = dict(
          "not claimed). Histories of 3 (quick) / 4 (thorough) requests.",
     technique="symbolic execution of the real Python allocators on a mock VM (symbolic sizes) + z3 per-path queries",
     design_ref="DESIGN.md §3 C48")
+
+CLAIMED['C46'] = dict(
+    level='other',
+    text="CrossHair (symbolic execution of the real Python over z3's string theory) checks PEP316 contracts: for every guest "
+         "path of up to 4 (quick) / 6 (thorough) characters over {/ \\ . a b}, unix_to_sbpath, windows_to_sbpath and "
+         "FileSystem.resolve_path under 5 symbolic-link layouts (follow and no-follow) return a path lexically inside the base "
+         "directory and, when following, not itself a link. 'Confirmed over all paths' is required; anything else is inconclusive.",
+    note="Trusted: crosshair-tool 0.0.110, z3, the containment oracle and link-table stubs in vf/ch/c46_harness.py. Real on-disk "
+         "symlinks, races and passthrough entries are outside the claim.",
+    technique="CrossHair symbolic execution (z3 strings) of the real path-resolution code against PEP316 contracts",
+    design_ref="DESIGN.md §3 C46", engine='crosshair')
